@@ -32,7 +32,7 @@ def write_cfg(path: str, spec: str = "Spec", invariants: list[str] = (), constan
     if constants:
         lines.append("CONSTANTS")
         for k, v in constants.items():
-            lines.append(f"  {k} = {v}")
+            lines.append(f"  {k}" if v is None else f"  {k} = {v}")     # None: the key is a whole line ("A <- B")
     if view:
         lines.append(f"VIEW {view}")
     if constraint:
